@@ -210,6 +210,13 @@ def run_case(cx, case):
         sender._system_counter = case["system"] - 1
         msg, blocks = expected_blocks(sender, fn, case["system"])
         encs = [bytes(b.encode()) for b in blocks]
+        want_blocks = max(1, -(-len(body) // 244))
+        if len(blocks) != want_blocks:
+            res.violate("c17-message-blocks", f"a message with a {len(body)}-byte body is cut into {len(blocks)} blocks (E4: {want_blocks}; a header-only "
+                        "message is ONE block with no data)", dict(case, blocks=len(blocks)), want_blocks, len(blocks))
+        if fault is not None and fault[0] >= len(encs):
+            fault = None  # nothing to corrupt: the block does not exist
+            case = dict(case, fault=None)
         if fault is not None and fault[0] < len(encs) and fault[1] < len(encs[fault[0]]) and encs[fault[0]][fault[1]] == fault[2]:
             fault = (fault[0], fault[1], (fault[2] + 1) % 256)  # replacing a byte by itself is not a corruption
             case = dict(case, fault=fault)
@@ -254,7 +261,10 @@ def run_case(cx, case):
                 res.violate("c17-wedged", "the send call did not return on a perfect line", small, "returns True", "blocked")
             elif r is not True:
                 res.violate("c17-send-failed", "the send call reported failure on a perfect line", small, True, r)
-        if r is True:
+        if r is True and not encs:
+            res.violate("c17-not-delivered-intact", "send reported success but nothing at all was transmitted (the message has no blocks)",
+                        dict(case, blocks=0), {"system": case["system"], "len": len(body)}, "no transmission")
+        elif r is True:
             ok = len(got) == 1 and bytes(got[0].data) == body and all(
                 int(getattr(got[0].header, f)) == int(getattr(msg.header, f)) for f in ("system", "device_id", "stream", "function", "from_equipment", "require_response"))
             if not ok:
@@ -297,7 +307,7 @@ def run_case(cx, case):
                 res.violate("c17-bad-delivered", "a different message was delivered after the length byte was altered", small)
 
         # ------------------------------------------------------------------ correspondence (not for a broken length byte: what follows is timing dependent garbage)
-        if not length_byte_fault and cx.drv.available:
+        if not length_byte_fault and cx.drv.available and encs:
             line = "secsiline run {} {} {} {} {}".format(
                 1 if direction == "H2E" else 0,
                 "-" if fault is None else f"{2 * fault[0] + 1}:{fault[1]}:{fault[2]}",
@@ -457,6 +467,139 @@ def show_block_hdr(h) -> str:
     return " ".join(str(int(getattr(h, f))) for f in FIELDS)
 
 
+def run_same_system(cx, case):
+    """consecutive messages in ONE direction with EQUAL system bytes (the peer re-uses the system bytes of a closed transaction; with
+    `send_response` the caller chooses them).  Oracle: every message whose send returned True is delivered exactly once, intact, in order."""
+    res, rng = cx.res, cx.rng
+    pair = Pair(rng.fork("same"), case["chunks"], case["pumped"], 0)
+    try:
+        direction = case["dir"]
+        sender, skey, rkey = (pair.host, "H", "E") if direction == "H2E" else (pair.equip, "E", "H")
+        a_end = pair.ch if direction == "H2E" else pair.ce
+        a_end.name, a_end.peer.name = "a", "b"
+        bodies = [hlib.Rng(case["body_seed"] + i).bytes(n) for i, n in enumerate(case["body_lens"])]
+        fns = [Fn(1 + i, 2 * i + 2, False, b) for i, b in enumerate(bodies)]
+        results = []
+        for fn in fns:
+            out = {}
+            t = threading.Thread(target=lambda fn=fn, out=out: out.update(r=sender.send_response(fn, case["system"])), daemon=True)
+            t.start()
+            t.join(6.0)
+            results.append("blocked" if t.is_alive() else out.get("r"))
+            if t.is_alive():
+                break
+        limit = time.time() + 1.0
+        want_n = sum(1 for r in results if r is True)
+        while time.time() < limit and len(pair.got[rkey]) < want_n:
+            time.sleep(0.003)
+        time.sleep(0.02)
+        got = list(pair.got[rkey])
+        with pair.world.lock:
+            transcript = list(pair.world.transcript)
+        small = dict(case, results=[repr(r) for r in results], delivered=[(m.header.stream, m.header.function, len(m.data)) for m in got])
+        res.count(("same-system", direction, tuple(case["body_lens"]), case["system"]), sample=small if case.get("sample") else None)
+        res.bump("same_system_bytes_messages", "/".join(str(max(1, -(-n // 244))) for n in case["body_lens"]) + " blocks")
+        want = [(fn.stream, fn.function, bodies[i]) for i, fn in enumerate(fns) if i < len(results) and results[i] is True]
+        have = [(m.header.stream, m.header.function, bytes(m.data)) for m in got]
+        if "blocked" in results:
+            res.violate("c17-wedged", "a send call did not return on a perfect line", small)
+        elif any(r is not True for r in results):
+            res.violate("c17-send-failed", "a send call reported failure on a perfect line", small, True, results)
+        if have != want:
+            res.violate("c17-not-delivered-intact", "consecutive messages with equal system bytes: a message whose send reported success was not "
+                        "delivered exactly once, intact, in order", small, [(a_, b_, len(c_)) for a_, b_, c_ in want], [(a_, b_, len(c_)) for a_, b_, c_ in have])
+        if any(m.header.system != case["system"] for m in got):
+            res.violate("c17-not-delivered-intact", "delivered with different system bytes", small)
+        line_blocks = []
+        for (n, d) in transcript:
+            if n == "a" and len(d) > 1:
+                blk = SecsIBlock.decode(d)
+                if blk is not None:
+                    line_blocks.append(blk)
+        if cx.drv.available and line_blocks:
+            line = "secsi reasm " + " ".join(show_block(b) for b in line_blocks)
+            impl = "ok " + ";".join(show_block_hdr(m.header) + " " + hexs(bytes(m.data)) + " n=" + str(len(m.blocks)) for m in got) + " | pending="
+            ans = hlib.strip_branch(cx.drv.run([line])[0])
+            res.traces_validated += 1
+            res.driver_used = True
+            if ans != impl:
+                res.disagree("equal system bytes: messages delivered vs Model.SecsI.reassemble (C16) of the blocks on the line",
+                             {"case": {k: v for k, v in small.items() if k != "results"}}, ans[:500], impl[:500])
+    finally:
+        pair.close()
+
+
+class PreemptedAfterSet(threading.Event):
+    """the thread that sets the event loses the cpu right after the waiters were woken (a legal schedule)"""
+
+    def set(self):
+        super().set()
+        time.sleep(0.25)
+
+
+def run_preempted_resolve(cx, case):
+    """`BlockSendInfo.resolve` is preempted right after it has signalled its event; the block was corrupted (NAK) or fine (ACK).
+    Oracle: the send reports exactly what the line said: False for NAK, True for ACK."""
+    import secsgem.common.protocol as proto_mod
+    res, rng = cx.res, cx.rng
+    orig_cls = proto_mod.BlockSendInfo
+
+    class Scheduled(orig_cls):
+        def __init__(self, data):
+            super().__init__(data)
+            self._result_trigger = PreemptedAfterSet()
+
+    proto_mod.BlockSendInfo = Scheduled
+    pair = Pair(rng.fork("preempt"), case["chunks"], False, 0)
+    try:
+        direction = case["dir"]
+        sender, skey, rkey = (pair.host, "H", "E") if direction == "H2E" else (pair.equip, "E", "H")
+        a_end = pair.ch if direction == "H2E" else pair.ce
+        a_end.name, a_end.peer.name = "a", "b"
+        body = hlib.Rng(case["body_seed"]).bytes(case["body_len"])
+        fn = Fn(case["stream"], case["function"], False, body)
+        sender._system_counter = case["system"] - 1
+        fault = case.get("fault")
+        if fault is not None:
+            pair.world.fault = ("a", 1, fault[1], fault[2])
+        out = {}
+        t = threading.Thread(target=lambda: out.update(r=sender.send_stream_function(fn)), daemon=True)
+        t.start()
+        t.join(4.0)
+        time.sleep(0.3)
+        with pair.world.lock:
+            transcript = list(pair.world.transcript)
+        answer = [d for (n, d) in transcript if n == "b"][1:2]
+        r = "blocked" if t.is_alive() else out.get("r")
+        small = dict(case, answer=answer[0].hex() if answer else None, returned=repr(r))
+        res.count(("preempted-resolve", direction, case["body_len"], fault), sample=small if case.get("sample") else None)
+        res.bump("resolve_preempted_after_event_set", f"fault={'yes' if fault else 'no'} -> {r}")
+        if answer == [bytes([NAK])] and r is not False:
+            res.violate("c17-nak-success", "the block was answered with NAK but the send call did not report failure (the thread resolving the result "
+                        "was preempted right after signalling its event)", small, False, r)
+        if answer == [bytes([ACK])] and r is not True:
+            res.violate("c17-send-failed", "the block was acknowledged but the send call did not report success", small, True, r)
+        if answer == [bytes([NAK])] and pair.got[rkey]:
+            res.violate("c17-bad-delivered", "a message was delivered although its block was answered with NAK", small)
+    finally:
+        proto_mod.BlockSendInfo = orig_cls
+        pair.close()
+
+
+def guarded(cx, fn, case):
+    """run one scenario; an exception out of the implementation (or out of the scenario because the implementation produced
+    something impossible: no blocks, None, ...) is a VIOLATION with the input, never a harness crash"""
+    try:
+        return fn(cx, case)
+    except Exception as exc:  # noqa: BLE001
+        import traceback
+        tb = traceback.extract_tb(exc.__traceback__)
+        where = "; ".join(f"{os.path.basename(f.filename)}:{f.lineno} {f.name}" for f in tb[-3:])
+        cx.res.violate("c17-exception", f"{type(exc).__name__}: {exc} ({where})", {k: v for k, v in case.items()}, "no exception", repr(exc))
+        cx.res.count(("exception", repr(sorted(case.items(), key=str))), nontrivial=False)
+        return None
+
+
 class Cx:
     def __init__(self, a):
         self.a = a
@@ -496,13 +639,17 @@ def main():
             c = v.get("case")
             if isinstance(c, dict) and c.get("part") == "concurrent":
                 for _ in range(5):
-                    run_concurrent(cx, {k: v for k, v in c.items() if k not in ("line_order", "interleaved", "results")})
+                    guarded(cx, run_concurrent, {k: v for k, v in c.items() if k not in ("line_order", "interleaved", "results")})
+            elif isinstance(c, dict) and c.get("part") == "same-system":
+                guarded(cx, run_same_system, {k: v for k, v in c.items() if k not in ("results", "delivered")})
+            elif isinstance(c, dict) and c.get("part") == "preempted-resolve":
+                guarded(cx, run_preempted_resolve, {k: v for k, v in c.items() if k not in ("answer", "returned")})
             elif isinstance(c, dict) and c.get("part") == "slow-answer":
-                run_slow_answer(cx, {k: v for k, v in c.items() if k not in ("answer", "returned", "after_s")})
+                guarded(cx, run_slow_answer, {k: v for k, v in c.items() if k not in ("answer", "returned", "after_s")})
             elif isinstance(c, dict) and "dir" in c:
                 c = dict(c)
                 c.pop("blocks", None)
-                run_case(cx, c)
+                guarded(cx, run_case, c)
     else:
         lens = [0, 1, 243, 244, 245, 487, 488, 489, 600, 732]
         if cx.big:
@@ -511,7 +658,7 @@ def main():
         for n in lens:
             for direction in ("H2E", "E2H"):
                 for _ in range(3 if cx.big else 2):
-                    run_case(cx, gen_case(rng, n, direction=direction))
+                    guarded(cx, run_case, gen_case(rng, n, direction=direction))
         # exhaustive positions on one small block (13 bytes: no data) and one with 3 data bytes
         n_exh = 0
         for body_len in (0, 3):
@@ -522,7 +669,7 @@ def main():
                     c = gen_case(rng, body_len, direction=rng.choice(["H2E", "E2H"]))
                     c["fault"] = (0, pos, v)
                     c["watchdog"] = 0.5 if pos == 0 else 3.0
-                    run_case(cx, c)
+                    guarded(cx, run_case, c)
                     n_exh += 1
         res.exhaustive_parts.append(f"one byte replaced at every offset of a 13-byte and a 16-byte block ({n_exh} transfers)")
         # sampled corruption in larger / multi-block messages
@@ -534,7 +681,7 @@ def main():
             pos = rng.range(1, blen - 1)
             c = gen_case(rng, n)
             c["fault"] = (j, pos, rng.below(256))
-            run_case(cx, c)
+            guarded(cx, run_case, c)
     if not a.replay:
         # concurrent senders on one endpoint (blocks of two or three multi-block messages alternate on the line)
         seen = 0
@@ -543,7 +690,7 @@ def main():
             c = {"part": "concurrent", "dir": rng.choice(["H2E", "E2H"]), "body_lens": lens, "body_seed": rng.below(2 ** 31),
                  "system": rng.choice([17, 2 ** 32 - 1, rng.range(1, 2 ** 32 - 4)]), "chunks": rng.choice([[1000], [7], [100, 1, 1, 1]]),
                  "pumped": bool(rng.below(2)), "sample": seen == 0}
-            seen += 1 if run_concurrent(cx, c) else 0
+            seen += 1 if guarded(cx, run_concurrent, c) else 0
         if seen == 0:
             res.notes.append("concurrent senders: the blocks never interleaved on the line in this run")
         # short T3, the peer's answer held back beyond it
@@ -552,7 +699,18 @@ def main():
             c.update(part="slow-answer", t3=0.2, hold=hold, fault=(0, rng.range(1, 12), rng.below(256)) if fault else None, sample=k < 2)
             if fault:
                 c["fault"] = (0, c["fault"][1], c["fault"][2])
-            run_slow_answer(cx, c)
+            guarded(cx, run_slow_answer, c)
+        # consecutive messages with equal system bytes, same direction (header-only, single-block, multi-block)
+        for k, lens in enumerate([[0, 0], [0, 5, 0], [10, 10], [300, 300], [0, 300, 0], [244, 244, 1]] + ([[0] * 4, [489, 5, 489]] if cx.big else [])):
+            c = {"part": "same-system", "dir": rng.choice(["H2E", "E2H"]), "body_lens": lens, "body_seed": rng.below(2 ** 31),
+                 "system": rng.choice([7, 0, 2 ** 32 - 1, rng.range(1, 2 ** 32 - 1)]), "chunks": rng.choice([[1000], [3], [100, 1, 1, 1]]),
+                 "pumped": bool(rng.below(2)), "sample": k == 0}
+            guarded(cx, run_same_system, c)
+        # the thread resolving the send result is preempted right after it signalled the event
+        for k, fault in enumerate([True, False, True]):
+            c = gen_case(rng, rng.choice([0, 0, 7]))
+            c.update(part="preempted-resolve", chunks=[1000], fault=(0, rng.range(1, 12), rng.below(256)) if fault else None, sample=k == 0)
+            guarded(cx, run_preempted_resolve, c)
     if cx.lines and cx.drv.available:
         res.driver_used = True
         outs = cx.drv.run(cx.lines)
